@@ -909,6 +909,16 @@ func (hash *SexpHash) SexpString(ps *PrintState) string {
 	indInner := ""
 	indent := ps.GetIndent()
 	innerPs := ps.AddIndent(4) // generates a fresh new PrintState
+	// a hash can be made to contain itself: (hset h k: h). Printing it
+	// must not recurse for ever (stack exhaustion kills the process).
+	// innerPs shares its Seen set with ps and with every nested printer.
+	if innerPs.GetSeen(hash) {
+		return "(" + hash.TypeName + " ...cycle...)"
+	}
+	innerPs.SetSeen(hash, "SexpHash")
+	// only a hash we are inside of is a cycle; the same hash met twice
+	// side by side prints twice, as before.
+	defer delete(innerPs.Seen, interface{}(hash))
 	inner := indent + 4
 	prettyEnd := ""
 	origIndInner := ""
